@@ -398,7 +398,7 @@ fn run_owned(case: &SeqCase, pr: &Progress) -> Result<CaseReport, Failure> {
 /// guard inside the harness factories (universe.rs) and surfaces as an ordinary panic; a hang
 /// cannot be survived on the calling thread, so the history runs on a thread of its own, which
 /// the caller watches through /proc/self/task/<tid>/status: state S with a frozen
-/// context-switch counter over 8 consecutive samples (200 ms).  All objects of the case are
+/// context-switch counter over 10 consecutive samples (250 ms).  All objects of the case are
 /// private to that thread, so nobody can ever wake it: the verdict is definite, the thread and
 /// its containers are leaked.  A hang anywhere else than at a predicted cycle is inconclusive.
 fn execute_guarded(case: &SeqCase) -> Result<CaseReport, Failure> {
@@ -440,7 +440,7 @@ fn execute_guarded(case: &SeqCase) -> Result<CaseReport, Failure> {
     prev = cur;
     let step = pr.step.load(Ordering::SeqCst);
     let k = ["global", "instance", "local"][pr.ck.load(Ordering::SeqCst).min(2)];
-    if stable >= 8 {
+    if stable >= 10 {
       if pr.at_cycle.load(Ordering::SeqCst) {
         // "a dependency cycle is reported by a panic instead of a hang"
         return Err(Failure::new(P, format!("E1/{k}/cycle/hang_instead_of_panic"), format!("step {step}: the resolution that closes a dependency cycle never returned; its thread is parked for good (state S, context-switch counter frozen)")));
